@@ -116,6 +116,9 @@ impl AtomicUsize {
         traced(self.ev(Op::Swap, v, order), || self.0.swap(v, order))
     }
 
+    /// Reported to the tracer as what it turned out to be: on success a read-modify-write that installs
+    /// `new` (op `CompareExchange`, operand `new`, ordering `success`); on failure the load it
+    /// degenerates to (op `Load`, ordering `failure`).
     #[inline]
     pub fn compare_exchange(
         &self,
@@ -124,13 +127,17 @@ impl AtomicUsize {
         success: Ordering,
         failure: Ordering,
     ) -> Result<usize, usize> {
-        let mut r = Ok(0);
-        traced(self.ev(Op::CompareExchange, new, success), || {
-            r = self.0.compare_exchange(current, new, success, failure);
-            match r {
-                Ok(v) | Err(v) => v,
-            }
-        });
+        let t = TRACER.load(Ordering::Acquire);
+        if t.is_null() {
+            return self.0.compare_exchange(current, new, success, failure);
+        }
+        let t = unsafe { &*t };
+        (t.pre)(&self.ev(Op::CompareExchange, new, success));
+        let r = self.0.compare_exchange(current, new, success, failure);
+        match r {
+            Ok(v) => (t.post)(&self.ev(Op::CompareExchange, new, success), v),
+            Err(v) => (t.post)(&self.ev(Op::Load, 0, failure), v),
+        }
         r
     }
 
